@@ -690,6 +690,13 @@ def extract_cli_options():
                         names.append(a[q + 2][1])
                     if a[q][1] == "long" and a[q + 1][1] == "=" and a[q + 2][0] == "str":
                         names[0] = a[q + 2][1]
+                short = None
+                for q in range(len(a)):
+                    if a[q][1] == "short" and a[q][0] == "id":
+                        if q + 2 < len(a) and a[q + 1][1] == "=" and a[q + 2][0] == "chr":
+                            short = a[q + 2][1]
+                        else:
+                            short = name[0]        # clap derives the short name from the field's first character
                 if ty == "bool":
                     kind = 0
                 elif ty.startswith("Vec<"):
@@ -698,7 +705,7 @@ def extract_cli_options():
                     kind = 3
                 else:
                     kind = 1
-                opts.append((names, kind, ty))
+                opts.append((names, kind, ty, short))
     if len(opts) < 20:
         raise ExtractError("command line: fewer than 20 options found")
     toks = tokenize(open(os.path.join(REPO, "src", "lib.rs")).read())
@@ -873,7 +880,11 @@ def main():
         lines = [hdr, "namespace Jawk.Generated\n",
                  "/-- (long name and visible aliases as code points, kind: 0 flag, 1 one value, 2 repeatable, 3 optional value), in declaration order -/",
                  "def cliOptions : List (List (List Nat) × Nat) := [",
-                 ",\n".join(f"  ({clist(names)}, {kind})" for names, kind, _ in cli_opts),
+                 ",\n".join(f"  ({clist(names)}, {kind})" for names, kind, _, _ in cli_opts),
+                 "]\n",
+                 "/-- (long name, short name) as code points for the options that have a one-letter name (`short` / `short = 'k'`) -/",
+                 "def cliShorts : List (List Nat × Nat) := [",
+                 ",\n".join(f"  ({codes(names[0])}, {ord(sh)})" for names, _, _, sh in cli_opts if sh is not None),
                  "]\n",
                  "/-- the accepted values of the enumerated options (kebab case) -/",
                  f"def onErrorValues : List (List Nat) := {clist(cli_enums['on_error'])}",
